@@ -132,3 +132,41 @@ def gen(ctx):
 
 
 UNITS = [Unit("extract", gen, check, shards=(4, 16))]
+
+
+# ----------------------------------------------------------------------------------------------- extraction behind the command line
+
+def check_cli(case):
+    """`treetools grammar <treebank> <prefix> treebank`: the written grammar and lexicon, decoded independently, are the
+    rule and token occurrences of the treebank (reference extraction from the set model)"""
+    from vlib import cligrammar
+    rules, lex = cligrammar.run("C06/cli", case)
+    exp_gram, exp_lex = lcfrs.extract_treebank(case["bank"])
+    want = Counter()
+    for func in exp_gram:
+        for lin in exp_gram[func]:
+            want[(func, lin)] += sum(exp_gram[func][lin].values())
+    if rules != want:
+        missing = [(k, want[k]) for k in want if rules.get(k) != want[k]][:2]
+        extra = [(k, rules[k]) for k in rules if want.get(k) != rules[k]][:2]
+        raise violation("C06/cli/" + ("counts" if set(rules) == set(want) else "rules-differ"),
+                        "occurrences in the treebank %r, grammar file %r (%s %s -> %s %s)" % (missing, extra, case["src_fmt"], case["src_enc"], case["dest_fmt"], case["dest_enc"]))
+    if lex != {w: dict(c) for w, c in exp_lex.items()}:
+        raise violation("C06/cli/lexicon", "lexicon file %r, token counts %r" % (lex, {w: dict(c) for w, c in exp_lex.items()}))
+    return want
+
+
+def gen_cli(ctx):
+    from vlib import cligrammar
+    quick = ctx.tier == "quick"
+
+    def body(case):
+        want = check_cli(case)
+        ctx.count(key=case, nontrivial=any(c > 1 for c in want.values()) or any(len(l) > 1 for (_f, l) in want), classes=cligrammar.classes(case))
+        if case.get("gz") == 2 and len(case["bank"]) >= 3:
+            ctx.sample({k: v for k, v in case.items() if k != "bank"}, cap=1)
+    ctx.hyp(cligrammar.settings(treebank(7 if quick else 10, 5), [{"type": "treebank"}]), body, max_examples=100 if quick else 1000, shrink=False,
+            smaller=cligrammar.smaller)
+
+
+UNITS.append(Unit("cli", gen_cli, check_cli, shards=(2, 8)))
